@@ -6,4 +6,4 @@ Require Import ExtrOcamlBasic.
 From RV Require Import Val Syntax Rho Offline Online ExtZ Run.
 Extraction "model.ml" Run.pk_std Run.run_off Run.run_rho Run.run_exact
   Run.run_on Run.run_on_supported Run.run_on_reset
-  Run.pk_ia_impl Run.pk_ia_spec Run.run_pastify Run.run_past_guard Run.run_past_spec Run.run_past_spec_pk Run.run_jitter Run.run_supported Run.run_supported_pastified Run.run_parse Run.run_lex Run.run_dn Run.dn_exact Run.run_rhoz Run.run_isect Run.run_oisect Run.run_binrun Run.run_parsefile Run.run_onlmon Run.run_onlforest Run.run_render Run.run_min_drops Run.run_wf Run.run_dump Run.run_nnames Run.run_ident Run.run_nmon Run.run_onlmonreset Run.run_onlun Run.run_onlsince Run.run_onlwin Run.run_explain Run.run_deval Run.run_deval_pk Run.run_satz Run.run_dbool Run.run_hor Run.run_bounded_future Run.run_past_only Run.run_is_bool Run.run_sat.
+  Run.pk_ia_impl Run.pk_ia_spec Run.run_pastify Run.run_past_guard Run.run_past_spec Run.run_past_spec_pk Run.run_jitter Run.run_supported Run.run_supported_pastified Run.run_parse Run.run_lex Run.run_dn Run.dn_exact Run.run_rhoz Run.run_isect Run.run_oisect Run.run_binrun Run.run_parsefile Run.run_onlmon Run.run_onlforest Run.run_render Run.run_min_drops Run.run_wf Run.run_dump Run.run_nnames Run.run_ident Run.run_nmon Run.run_unitslift Run.ul_q Run.run_unless Run.run_onlmonreset Run.run_onlun Run.run_onlsince Run.run_onlwin Run.run_explain Run.run_deval Run.run_deval_pk Run.run_satz Run.run_dbool Run.run_hor Run.run_bounded_future Run.run_past_only Run.run_is_bool Run.run_sat.
